@@ -9,7 +9,7 @@ def mc_cfg(name, devs):
 
 
 def transition_check(sc, tier, seed, prop, models, quick_n, rule, thorough_n=None, level='model_checking',
-                     assumptions=(), port=21000):
+                     assumptions=(), port=21000, walks=(), walk_n=(300, 3000), walk_depth=8):
     """TLC enumerates every (state x command) transition of the bounded family models, checks the
     property invariants on the ideal reading, and every transition (a seeded, shape-stratified sample
     in the quick tier) is replayed on the real server over TCP with a full-state comparison."""
@@ -29,10 +29,40 @@ def transition_check(sc, tier, seed, prop, models, quick_n, rule, thorough_n=Non
         c['id'] = i
     total = len(allcases)
     n = quick_n if tier == 'quick' else (thorough_n or total)
-    chosen = sample_cases(allcases, n, seed)
+    # every model gets an equal share of the budget (small models are then replayed completely)
+    chosen = []
+    bymodel = {}
+    for c in allcases:
+        bymodel.setdefault(c['model'], []).append(c)
+    left, models_left = n, len(bymodel)
+    for mname, cs in sorted(bymodel.items(), key=lambda kv: len(kv[1])):
+        share = max(1, left // models_left)
+        part = sample_cases(cs, share, seed)
+        chosen.extend(part)
+        left -= len(part)
+        models_left -= 1
     results, dt = run_replay(exe, sc, chosen, port=port)
     v.absorb_replay(chosen, results)
     v.add_samples(chosen, 3)
+    # random multi-step walks (tlc -simulate), each step evaluated under both readings
+    nwalk = 0
+    for wmod in walks:
+        num = walk_n[0] if tier == 'quick' else walk_n[1]
+        cfg = mc_cfg(wmod, devs).replace('Depth = 8', 'Depth = %d' % walk_depth)
+        out, st = run_tlc(sc, wmod, cfg, workers=1, timeout=900,
+                          extra=['-simulate', 'num=%d' % num, '-depth', str(3 * walk_depth + 5), '-seed', str(seed)])
+        if st['rc'] != 0 or st['violated']:
+            raise Inconclusive('TLC simulation failed on %s:\n%s' % (wmod, '\n'.join(st['tail'][-20:])))
+        wcs = walk_cases(tlc_json_lines(out))
+        if not wcs:
+            raise Inconclusive('TLC simulation of %s produced no walk' % wmod)
+        for i, c in enumerate(wcs):
+            c['id'] = i
+        wres, wdt = run_replay(exe, sc, wcs, port=port, tag='walks-' + wmod)
+        v.absorb_replay(wcs, wres, engine='walks')
+        v.add_samples(wcs[:1], 1)
+        v.cov['tlc_runs'].append({'model': wmod + ' (simulation)', 'walks': len(wcs), 'depth': walk_depth, 'wall_s': st['wall_s']})
+        nwalk += len(wcs)
     v.assumptions = list(assumptions) + [
         'trusted observers/constructors: SET RPUSH HSET SADD PEXPIREAT SELECT FLUSHALL / KEYS TYPE GET LRANGE LLEN LINDEX HGETALL SMEMBERS PEXPIRETIME (each is itself a target of transition cases; a loader whose result does not project to the pre-state is reported, not skipped)',
         'error replies compared by error code only; unordered collections as multisets; random replies by membership/size/distinctness',
@@ -40,38 +70,38 @@ def transition_check(sc, tier, seed, prop, models, quick_n, rule, thorough_n=Non
     ]
     return v.finish(level=level, rule=rule, exhaustive=(len(chosen) == total),
                     extra={'transitions_enumerated_by_tlc': total, 'transitions_replayed': len(chosen),
-                           'replay_wall_s': round(dt, 1)})
+                           'walks_replayed': nwalk, 'replay_wall_s': round(dt, 1)})
 
 
 def c03(sc, tier, seed):
-    return transition_check(sc, tier, seed, 'C03', ['MC_lists'], 15000,
-                            'TLC enumerates every state of MC_lists (2 keys; lists up to 3 over 2 elements, a string, a set) x every list command instance (indexes -5..5 and 32/64-bit extremes, counts, ranks, option orders, keyword case, bad arity); each transition is one case: load pre-state, send command, compare reply and full projected state. Non-trivial = the command changed the state or failed; distinct = distinct (pre-state, command).')
+    return transition_check(sc, tier, seed, 'C03', ['MC_lists'], walks=['MC_lists_walk'], quick_n=15000,
+                            rule='TLC enumerates every state of MC_lists (2 keys; lists up to 3 over 2 elements, a string, a set) x every list command instance (indexes -5..5 and 32/64-bit extremes, counts, ranks, option orders, keyword case, bad arity); each transition is one case: load pre-state, send command, compare reply and full projected state. Non-trivial = the command changed the state or failed; distinct = distinct (pre-state, command).')
 
 
 def c05(sc, tier, seed):
-    return transition_check(sc, tier, seed, 'C05', ['MC_sets'], 15000,
-                            'TLC enumerates every state of MC_sets (3 keys; each missing, one of the 3 non-empty sets over {x,y}, a string or a list) x every set command instance (all operand tuples up to length 3 incl. repeated/missing/wrong-typed operands and destination among the operands, SRANDMEMBER counts -3..3, SINTERCARD numkeys/LIMIT variants, bad arity); one replay case per transition with full-state comparison. Non-trivial = state changed or command failed; distinct = distinct (pre-state, command).')
+    return transition_check(sc, tier, seed, 'C05', ['MC_sets', 'MC_sets2'], walks=['MC_sets_walk'], quick_n=60000,
+                            rule='TLC enumerates every state of MC_sets (3 keys; each missing, one of the 3 non-empty sets over {x,y}, a string or a list) x every set command instance (all operand tuples up to length 3 incl. repeated/missing/wrong-typed operands and destination among the operands, SRANDMEMBER counts -3..3, SINTERCARD numkeys/LIMIT variants, bad arity); one replay case per transition with full-state comparison. Non-trivial = state changed or command failed; distinct = distinct (pre-state, command).')
 
 
 def c04(sc, tier, seed):
-    return transition_check(sc, tier, seed, 'C04', ['MC_hashes'], 15000,
-                            'TLC enumerates every state of MC_hashes (2 keys; hashes over fields {f,g} with values {x,7}, boundary integers +-2^63, mixed signs, dyadic floats, empty value; wrong-typed keys) x every hash command instance (HSET/HMSET/HSETNX incl. repeated fields and odd arity, HINCRBY over a sign/overflow table, HINCRBYFLOAT on dyadic values, HRANDFIELD counts -3..3 with/without WITHVALUES, bad arity); one replay case per transition with full-state comparison.')
+    return transition_check(sc, tier, seed, 'C04', ['MC_hashes'], walks=['MC_hashes_walk'], quick_n=15000,
+                            rule='TLC enumerates every state of MC_hashes (2 keys; hashes over fields {f,g} with values {x,7}, boundary integers +-2^63, mixed signs, dyadic floats, empty value; wrong-typed keys) x every hash command instance (HSET/HMSET/HSETNX incl. repeated fields and odd arity, HINCRBY over a sign/overflow table, HINCRBYFLOAT on dyadic values, HRANDFIELD counts -3..3 with/without WITHVALUES, bad arity); one replay case per transition with full-state comparison.')
 
 
 def c02(sc, tier, seed):
-    return transition_check(sc, tier, seed, 'C02', ['MC_strings'], 15000,
-                            'TLC enumerates every state of MC_strings (2 keys; strings incl. empty, numeric, +-2^63, dyadic float, with and without TTL; wrong-typed keys) x every string command instance (SET with 29 option vectors incl. orders, keyword case and invalid combinations; SETNX/MSETNX in three spellings; GETRANGE over a 10x10 offset table; SETRANGE offsets -1..5; counters over a boundary table; LCS); one replay case per transition with full-state (value + deadline) comparison.',
+    return transition_check(sc, tier, seed, 'C02', ['MC_strings'], walks=['MC_strings_walk'], quick_n=15000,
+                            rule='TLC enumerates every state of MC_strings (2 keys; strings incl. empty, numeric, +-2^63, dyadic float, with and without TTL; wrong-typed keys) x every string command instance (SET with 29 option vectors incl. orders, keyword case and invalid combinations; SETNX/MSETNX in three spellings; GETRANGE over a 10x10 offset table; SETRANGE offsets -1..5; counters over a boundary table; LCS); one replay case per transition with full-state (value + deadline) comparison.',
                             assumptions=['INCRBYFLOAT/HINCRBYFLOAT only on multiples of 0.25 (exact in every float format); decimal rounding of non-dyadic values is out of scope'])
 
 
 def c06(sc, tier, seed):
-    return transition_check(sc, tier, seed, 'C06', ['MC_keyspace'], 26000,
-                            'TLC enumerates MC_keyspace: 2 keys, each missing or one of 9 values (2 strings, 3 lists, 2 hashes, 2 sets; one- and two-element aggregates so that removing the last element is reached) x one well-formed instance of every data command per key (the WRONGTYPE cross product) + generic key commands (DEL UNLINK EXISTS TYPE TOUCH RENAME RENAMENX COPY KEYS with 16 glob patterns, RANDOMKEY, DBSIZE, SORT variants) + arity/unknown-command failures; FailedInert and WellFormed (no empty aggregate, one type per key) are checked by TLC on the ideal reading; every transition is replayed with full-state comparison before/after (that comparison is the inertness check on the real server).')
+    return transition_check(sc, tier, seed, 'C06', ['MC_keyspace'], walks=['MC_keyspace_walk'], quick_n=26000,
+                            rule='TLC enumerates MC_keyspace: 2 keys, each missing or one of 9 values (2 strings, 3 lists, 2 hashes, 2 sets; one- and two-element aggregates so that removing the last element is reached) x one well-formed instance of every data command per key (the WRONGTYPE cross product) + generic key commands (DEL UNLINK EXISTS TYPE TOUCH RENAME RENAMENX COPY KEYS with 16 glob patterns, RANDOMKEY, DBSIZE, SORT variants) + arity/unknown-command failures; FailedInert and WellFormed (no empty aggregate, one type per key) are checked by TLC on the ideal reading; every transition is replayed with full-state comparison before/after (that comparison is the inertness check on the real server).')
 
 
 def c07(sc, tier, seed):
-    return transition_check(sc, tier, seed, 'C07', ['MC_expiry'], 25000,
-                            'TLC enumerates MC_expiry: 2 keys, every type in each lifetime phase (no TTL / deadline in the future / deadline passed but object still stored, produced on the real server by PEXPIREAT into the past so that no sleeping is needed) x one instance of every data command per key + the EXPIRE/PEXPIRE/EXPIREAT/PEXPIREAT x NX/XX/GT/LT table + SET/GETEX expiry options; TLC checks ExpiredIsMissing (reply and live successor are unchanged when the stored db is replaced by its live part) on the ideal reading; every transition is replayed; deadlines are compared exactly for absolute-millisecond commands, within 1 s for whole-second commands and within the elapsed-time window for relative ones.',
+    return transition_check(sc, tier, seed, 'C07', ['MC_expiry'], walks=['MC_expiry_walk'], quick_n=25000,
+                            rule='TLC enumerates MC_expiry: 2 keys, every type in each lifetime phase (no TTL / deadline in the future / deadline passed but object still stored, produced on the real server by PEXPIREAT into the past so that no sleeping is needed) x one instance of every data command per key + the EXPIRE/PEXPIRE/EXPIREAT/PEXPIREAT x NX/XX/GT/LT table + SET/GETEX expiry options; TLC checks ExpiredIsMissing (reply and live successor are unchanged when the stored db is replaced by its live part) on the ideal reading; every transition is replayed; deadlines are compared exactly for absolute-millisecond commands, within 1 s for whole-second commands and within the elapsed-time window for relative ones.',
                             assumptions=['model clock in ms; model time 1000000 is mapped to the wall-clock second at which a case starts; symbolic @T:/@M: arguments are substituted by real epoch values at replay time',
                                          'TTL/PTTL replies are accepted in the window [expected - elapsed - 1.5 s, expected]'])
 
